@@ -456,7 +456,7 @@ def run(ctx):
         for s, l, t in st.decs:
             if s == "discr(.kind(node))" or re.match(r"^discr\(std::iter::Iterator::next\(L\d+\)\)$", s):
                 continue
-            m = re.match(r"^binop:(Gt|Ge|Lt|Le|Eq|Ne)\(%s, (\d+)_usize\)$" % COUNT, s)
+            m = re.match(r"^binop:(Gt|Ge|Lt|Le|Eq|Ne)\(%s, (\d+)_(?:usize|isize|[iu]32|[iu]64|[iu]128)\)$" % COUNT, s)
             mp = re.match(r"^discr\(%s\)$" % POS, s)
             if m:
                 op, k = m.group(1), int(m.group(2))
